@@ -1,4 +1,278 @@
-use crate::{ctx::CaseOut, Params};
-pub fn case(_idx: u64, _seed: u64, _p: &Params, o: &mut CaseOut) {
-    o.skipped = true;
+//! C20 — equality, ordering, hashing and cloning respect the abstract digraph.
+
+use crate::ctx::CaseOut;
+use crate::gen;
+use crate::model::Model;
+use crate::obs::{observe, observe_w};
+use crate::reprs::*;
+use crate::rng::{Fp, Rng};
+use crate::Params;
+use graaf::*;
+use std::cmp::Ordering;
+use std::collections::hash_map::DefaultHasher;
+use std::hash::{Hash, Hasher};
+
+fn h<T: Hash>(x: &T) -> u64 {
+    let mut s = DefaultHasher::new();
+    x.hash(&mut s);
+    s.finish()
+}
+
+fn same<T: Eq + Ord + Hash>(o: &mut CaseOut, a: &T, b: &T, what: &str) {
+    o.check(a == b && b == a, &format!("{what}:equal-models-compare-unequal"), String::new);
+    o.check(a.cmp(b) == Ordering::Equal && b.cmp(a) == Ordering::Equal && a.partial_cmp(b) == Some(Ordering::Equal), &format!("{what}:equal-models-not-Ordering::Equal"), String::new);
+    o.check(h(a) == h(b), &format!("{what}:equal-models-hash-differently"), String::new);
+}
+
+fn differ<T: Eq + Ord + Hash>(o: &mut CaseOut, a: &T, b: &T, what: &str) {
+    o.check(a != b && b != a, &format!("{what}:different-models-compare-equal"), String::new);
+    o.check(a.cmp(b) != Ordering::Equal && a.cmp(b) == b.cmp(a).reverse(), &format!("{what}:cmp-inconsistent-with-eq"), String::new);
+}
+
+/// Build `m` by a detour-laden history: permuted adds, add + remove of arcs
+/// that are not in m, re-adds.
+fn detour<D: Unweighted>(r: &mut Rng, m: &Model) -> (D, usize) {
+    let n = m.n();
+    let mut d = D::empty(n);
+    let mut arcs = m.arc_list();
+    r.shuffle(&mut arcs);
+    let mut steps = 0;
+    for &(u, v) in &arcs {
+        if r.chance(0.3) && n >= 2 {
+            // detour: add and remove an arc that is not in m
+            let a = r.below(n);
+            let b = (a + 1 + r.below(n - 1)) % n;
+            if !m.has(a, b) {
+                d.add_arc(a, b);
+                let _ = d.remove_arc(a, b);
+                steps += 2;
+            }
+        }
+        d.add_arc(u, v);
+        steps += 1;
+        if r.chance(0.2) {
+            d.add_arc(u, v);
+            steps += 1;
+        }
+        if r.chance(0.1) {
+            let _ = d.remove_arc(u, v);
+            d.add_arc(u, v);
+            steps += 2;
+        }
+    }
+    (d, steps)
+}
+
+fn unweighted<D>(r: &mut Rng, m: &Model, o: &mut CaseOut, p_big: bool) -> bool
+where
+    D: Unweighted + From<AdjacencyList> + Complete + Circuit + Empty,
+    AdjacencyList: From<D>,
+{
+    let name = D::NAME;
+    let n = m.n();
+    let a = D::build(m);
+    let (b, steps) = detour::<D>(r, m);
+    same(o, &a, &b, &format!("{name}(detour history)"));
+    same(o, &a, &D::build_alt(m), &format!("{name}(From<iter>)"));
+    // conversion round trip
+    let rt = D::from(AdjacencyList::from(a.clone()));
+    same(o, &a, &rt, &format!("{name}(conversion round trip)"));
+    // generator vs manual construction
+    let mut rr = Rng(0);
+    same(o, &D::complete(n), &D::build(&gen::family(&mut rr, 2, n)), &format!("{name}(complete vs add_arc)"));
+    same(o, &D::circuit(n), &D::build(&gen::family(&mut rr, 4, n)), &format!("{name}(circuit vs add_arc)"));
+    // minimal differences
+    if n >= 2 {
+        let u = r.below(n);
+        let v = (u + 1 + r.below(n - 1)) % n;
+        let mut m2 = m.clone();
+        if !m2.remove(u, v) {
+            m2.add(u, v, 1);
+        }
+        differ(o, &a, &D::build(&m2), &format!("{name}(one arc flipped)"));
+    }
+    let mut m3 = m.clone();
+    m3.verts.insert(n);
+    differ(o, &a, &D::build(&m3), &format!("{name}(order + 1, same arcs)"));
+    // clone: equal and independent
+    let mut c = a.clone();
+    same(o, &a, &c, &format!("{name}(clone)"));
+    if n >= 2 {
+        let u = r.below(n);
+        let v = (u + 1 + r.below(n - 1)) % n;
+        let mut mc = m.clone();
+        if m.has(u, v) {
+            let _ = c.remove_arc(u, v);
+            mc.remove(u, v);
+        } else {
+            c.add_arc(u, v);
+            mc.add(u, v, 1);
+        }
+        observe(&a, m, o, &format!("{name}:original-after-mutating-clone"), !p_big);
+        observe(&c, &mc, o, &format!("{name}:clone-after-mutation"), !p_big);
+        differ(o, &a, &c, &format!("{name}(clone mutated)"));
+        // mutate the original back towards the clone: they meet again
+        let mut a2 = a.clone();
+        if m.has(u, v) {
+            let _ = a2.remove_arc(u, v);
+        } else {
+            a2.add_arc(u, v);
+        }
+        same(o, &a2, &c, &format!("{name}(both mutated the same way)"));
+        observe(&a, m, o, &format!("{name}:original-after-mutating-second-clone"), false);
+    }
+    steps != m.size()
+}
+
+pub fn case(idx: u64, seed: u64, p: &Params, o: &mut CaseOut) {
+    let mut r = Rng::for_case(20, seed, idx);
+    let max = p.usize("max_order", 40);
+    let fam = r.below(gen::FAMILIES.len());
+    let n = match r.below(10) {
+        0..=6 => gen::small_order(&mut r, max.min(9)),
+        7 => *r.pick(&[8usize, 9, 16, 17, 31, 32, 33]).min(&max),
+        _ => r.range(1, max),
+    };
+    let mut m = gen::family(&mut r, fam, n);
+    let ty = r.below(7);
+    let big = n > 20;
+    let name;
+    let nt = match ty {
+        0 => {
+            name = "AdjacencyList";
+            unweighted::<AdjacencyList>(&mut r, &m, o, big)
+        }
+        1 => {
+            name = "AdjacencyMap";
+            let nt = unweighted::<AdjacencyMap>(&mut r, &m, o, big);
+            // an extra isolated vertex with a sparse id makes a different digraph
+            let a = build_map_any(&m);
+            let mut m2 = m.clone();
+            m2.verts.insert(n + 1 + r.below(100));
+            differ(o, &a, &build_map_any(&m2), "AdjacencyMap(extra isolated vertex)");
+            // two histories to the same sparse digraph
+            let s = gen::sparsify(&mut r, &m);
+            let x = build_map_any(&s);
+            let mut y = AdjacencyMap::empty(1);
+            let mut arcs = s.arc_list();
+            r.shuffle(&mut arcs);
+            let mut vs = s.vert_list();
+            r.shuffle(&mut vs);
+            for &v in &vs {
+                if v != 0 {
+                    y.add_arc(v, 0);
+                    let _ = y.remove_arc(v, 0);
+                }
+            }
+            for &(u, v) in &arcs {
+                y.add_arc(u, v);
+            }
+            if !s.verts.contains(&0) {
+                y = y.filter_vertices(|v| v != 0);
+            }
+            same(o, &x, &y, "AdjacencyMap(two histories, sparse ids)");
+            nt
+        }
+        2 => {
+            name = "AdjacencyMatrix";
+            let nt = unweighted::<AdjacencyMatrix>(&mut r, &m, o, big);
+            // double toggle is the identity; toggling builds the same digraph as add_arc
+            let a = AdjacencyMatrix::build(&m);
+            let mut t = AdjacencyMatrix::empty(n);
+            for &(u, v) in m.arcs.keys() {
+                t.toggle(u, v);
+            }
+            if n >= 2 {
+                let u = r.below(n);
+                let v = (u + 1 + r.below(n - 1)) % n;
+                t.toggle(u, v);
+                t.toggle(u, v);
+            }
+            same(o, &a, &t, "AdjacencyMatrix(toggle history)");
+            nt
+        }
+        3 => {
+            name = "EdgeList";
+            unweighted::<EdgeList>(&mut r, &m, o, big)
+        }
+        4 | 5 => {
+            name = if ty == 4 { "AdjacencyListWeighted<usize>" } else { "AdjacencyListWeighted<isize>" };
+            gen::weights(&mut r, &mut m, if ty == 4 { gen::WClass::Small } else { gen::WClass::MixedNeg });
+            macro_rules! weighted {
+                ($build:ident, $alt:ident, $W:ty) => {{
+                    let a = $build(&m);
+                    let b = $alt(&m);
+                    same(o, &a, &b, &format!("{name}(From<iter>)"));
+                    // history with overwritten weights
+                    let mut c = AdjacencyListWeighted::<$W>::empty(n);
+                    let mut arcs = m.arc_list_w();
+                    r.shuffle(&mut arcs);
+                    for &(u, v, w) in &arcs {
+                        if r.chance(0.4) {
+                            c.add_arc_weighted(u, v, (w + 1) as $W);
+                        }
+                        c.add_arc_weighted(u, v, w as $W);
+                    }
+                    same(o, &a, &c, &format!("{name}(weights overwritten)"));
+                    if let Some(&(u, v, w)) = arcs.first() {
+                        let mut d = a.clone();
+                        d.add_arc_weighted(u, v, (w + 1) as $W);
+                        differ(o, &a, &d, &format!("{name}(one weight differs)"));
+                        let mut mc = m.clone();
+                        mc.add(u, v, w + 1);
+                        observe_w(&a, &m, o, &format!("{name}:original-after-mutating-clone"), |x| *x as i64);
+                        observe_w(&d, &mc, o, &format!("{name}:clone-after-mutation"), |x| *x as i64);
+                        let mut e = a.clone();
+                        let _ = e.remove_arc(u, v);
+                        differ(o, &a, &e, &format!("{name}(one arc removed)"));
+                        observe(&a, &m, o, &format!("{name}:original-after-removing-from-clone"), !big);
+                    }
+                    let mut m3 = m.clone();
+                    m3.verts.insert(n);
+                    differ(o, &a, &$build(&m3), &format!("{name}(order + 1, same arcs)"));
+                }};
+            }
+            if ty == 4 {
+                weighted!(build_w_usize, build_w_usize_alt, usize);
+            } else {
+                weighted!(build_w_isize, build_w_isize_alt, isize);
+            }
+            m.size() > 0
+        }
+        _ => {
+            // is_complete is implemented as == complete(order) for matrix and edge list
+            name = "is_complete-via-eq";
+            let full = gen::family(&mut Rng(0), 2, n);
+            let mut d = AdjacencyMatrix::empty(n);
+            let mut e = EdgeList::empty(n);
+            let mut arcs = full.arc_list();
+            r.shuffle(&mut arcs);
+            for &(u, v) in &arcs {
+                d.add_arc(u, v);
+                e.add_arc(u, v);
+            }
+            o.check(d.is_complete() && e.is_complete(), "is_complete-after-add-history", String::new);
+            if let Some(&(u, v)) = arcs.first() {
+                let _ = d.remove_arc(u, v);
+                let _ = e.remove_arc(u, v);
+                o.check(!d.is_complete() && !e.is_complete(), "is_complete-after-remove", String::new);
+                d.add_arc(u, v);
+                e.add_arc(u, v);
+                o.check(d.is_complete() && e.is_complete(), "is_complete-after-re-add", String::new);
+                same(o, &d, &AdjacencyMatrix::complete(n), "AdjacencyMatrix(remove + re-add vs complete)");
+                same(o, &e, &EdgeList::complete(n), "EdgeList(remove + re-add vs complete)");
+            }
+            n >= 2
+        }
+    };
+    let mut fp = Fp::new();
+    fp.us(ty);
+    m.fingerprint(&mut fp);
+    o.fp = fp.0;
+    o.nontrivial = nt;
+    o.bump(name);
+    o.bump(gen::FAMILIES[fam]);
+    if o.want_desc {
+        o.desc = format!("{name} family={} {}", gen::FAMILIES[fam], m.describe());
+    }
 }
